@@ -44,6 +44,28 @@ def drvStep (d : ServerDecl) (ws : List String) : ServerDecl × String :=
               ++ " i " ++ rle (fun h => idxStr (indexByHandle d h)) x (y - x + 1))
           else (d, "bad-op")
       | _, _ => (d, "bad-op")
+  | ["acc", hs] => match hs.toNat? with
+      | some h =>
+          if h ≤ 0xffff then
+            let err := fun (op : UInt8) (code : UInt8) => toHex [0x01, op, lo h, hi h, code]
+            let rd := match accessIndex d h with
+              | none => "inv"
+              | some i => match (attrs d)[i]? with
+                  | some a => (match a.value with
+                      | some v => "ok:" ++ toHex (v.take 22)
+                      | none => "err@" ++ hex16 h)
+                  | none => "model-oob"
+            let wr := match accessIndex d h with
+              | none => "inv"
+              | some _ => "acc@" ++ hex16 h
+            let fi := if h = 0 then err 0x04 0x01 else match findInfoIndex d h with
+              | none => err 0x04 0x0A
+              | some i => match (attrs d)[i]? with
+                  | some a => toHex ([0x05, if a.uuid.is128 then 0x02 else 0x01, lo (handleByIndex d i), hi (handleByIndex d i)] ++ a.uuid.bytes)
+                  | none => "model-oob"
+            (d, "r:" ++ rd ++ " b:" ++ rd ++ " w:" ++ wr ++ " f:" ++ fi)
+          else (d, "bad-op")
+      | none => (d, "bad-op")
   | ["attr", i] => match i.toNat? with
       | some k => match (attrs d)[k]? with
           | some a =>
